@@ -30,3 +30,32 @@ Print Assumptions C17_shape_is_modelled_shape.
 Theorem C17_only_allowed_field_writes : forallb allowed_write sp_field_writes = true.
 Proof. exact only_setters_and_lazy_ctx_write_sp. Qed.
 Print Assumptions C17_only_allowed_field_writes.
+
+(* ---- purity / determinism of the calls (the half of C17 that is not about the lock): the bodies of the validation stage,
+   the message builders, the key getters, the decryption glue, the metadata and the redirect / POST builders, as TRANSLATED
+   from /repo on this run, are FUNCTIONS of (configuration, clock reading, input, oracle answers): each equals a Gallina
+   function of exactly those arguments (a translated body that iterated over a map, read a package-level variable, or
+   assigned a receiver field other than the three listed above would not translate / not be equal).  Identical calls give
+   identical outcomes and validation does not modify the configuration: the translated bodies below return no new receiver. ---- *)
+From V Require Import Time Types Profile Keys Metadata GenPrelude GenFuncs GenPreludeMeta GenMeta P_GenFuncs P_GenMeta.
+Theorem C17_source_validation_stage_is_a_function : forall cfg now,
+  (forall r, G_validateResponseAttributes cfg now r = PVal (validate_attrs (cfg_acs_url cfg) (r_destination r) (r_version r))) /\
+  (forall r, G_validateLogoutResponseAttributes cfg now r = PVal (validate_attrs (cfg_slo_url cfg) (lr_destination r) (lr_version r))) /\
+  (forall q, G_validateLogoutRequestAttributes cfg now q = PVal (validate_attrs (cfg_slo_url cfg) (lq_destination q) (lq_version q))) /\
+  (forall r, G_Validate cfg now r = PVal (validate cfg now r)) /\
+  (forall a, G_VerifyAssertionConditions cfg now a = PVal (res_some (verify_conditions cfg now a))) /\
+  (forall r, G_ValidateDecodedLogoutResponse cfg now r = PVal (validate_logout_response cfg r)) /\
+  (forall q, G_ValidateDecodedLogoutRequest cfg now q = PVal (validate_logout_request cfg q)).
+Proof.
+  intros cfg now.
+  exact (conj (G_validateResponseAttributes_eq cfg now) (conj (G_validateLogoutResponseAttributes_eq cfg now)
+        (conj (G_validateLogoutRequestAttributes_eq cfg now) (conj (G_Validate_eq cfg now) (conj (G_VerifyAssertionConditions_eq cfg now)
+        (conj (G_ValidateDecodedLogoutResponse_eq cfg now) (G_ValidateDecodedLogoutRequest_eq cfg now))))))).
+Qed.
+Print Assumptions C17_source_validation_stage_is_a_function.
+
+Theorem C17_source_Metadata_is_a_function : forall (c : md_config) (now : instant) (nil_of_empty : bool) (h : Z),
+  G_Metadata c now nil_of_empty = PVal (res_some (metadata c now)) /\
+  G_MetadataWithSLO c now h = PVal (res_some (metadata_with_slo c now h)).
+Proof. intros c now u h. exact (conj (G_Metadata_is_model c now u) (G_MetadataWithSLO_is_model c now h)). Qed.
+Print Assumptions C17_source_Metadata_is_a_function.
